@@ -612,3 +612,82 @@ theorem value_progress {s s' : St} {v : Option Rat} (h : value s = some (s', 0, 
       · simp at h
 
 end Qsx.LpLex
+
+namespace Qsx.LpLex
+
+/-! ### what `has_colon` answers (C10): is there a `:` on the rest of the line, comments and line break excluded -/
+
+/-- a `:` occurs before the end of the line -/
+def colonAhead : List Char → Bool
+  | [] => false
+  | c :: cs => if endLine c then false else if c == ':' then true else colonAhead cs
+
+theorem scanFrom_colon : ∀ (l : List Char) (i k : Nat),
+    ∃ j, scanFrom (fun c _ => !endLine c && c != ':') l i k = some j ∧ i ≤ j ∧ j ≤ i + l.length ∧
+      ((l.drop (j - i)).head? == some ':') = colonAhead l
+  | [], i, k => ⟨i, by simp [scanFrom, endLine_nul], by omega, by simp, by simp [colonAhead]⟩
+  | c :: cs, i, k => by
+    unfold scanFrom
+    by_cases he : endLine c = true
+    · have hcond : (!endLine c && c != ':') = false := by simp [he]
+      have hc : (c == ':') = false := by
+        unfold endLine at he
+        simp only [Bool.or_eq_true, beq_iff_eq] at he
+        rcases he with (h | h) | h
+        · subst h; decide
+        · subst h; decide
+        · subst h; decide
+      refine ⟨i, ?_, by omega, by simp, ?_⟩
+      · simp only [hcond]; simp
+      · simp [colonAhead, he, hc]
+    · by_cases hc : (c == ':') = true
+      · have hcond : (!endLine c && c != ':') = false := by
+          have : c = ':' := by simpa using hc
+          subst this; decide
+        refine ⟨i, ?_, by omega, by simp, ?_⟩
+        · simp only [hcond]; simp
+        · simp [colonAhead, he, hc]
+      · have hcond : (!endLine c && c != ':') = true := by
+          have h1 : endLine c = false := by simpa using he
+          have h2 : (c == ':') = false := by simpa using hc
+          simp [h1, bne, h2]
+        obtain ⟨j, hj, h1, h2, h3⟩ := scanFrom_colon cs (i + 1) (k + 1)
+        refine ⟨j, ?_, by omega, by simp; omega, ?_⟩
+        · simp only [hcond]; simpa using hj
+        · have hji : j - i = (j - (i + 1)) + 1 := by omega
+          have h1' : endLine c = false := by simpa using he
+          have h2' : (c == ':') = false := by simpa using hc
+          rw [hji, List.drop_succ_cons, h3]
+          simp [colonAhead, h1', h2']
+
+/-- `has_colon` answers 1 exactly when a `:` occurs on the rest of the line before its end (a comment has been cut off by
+next_line, so a `:` inside a comment does not count), and it leaves the cursor where skip_blanks put it -/
+theorem hasColon_spec (s : St) (h : Inv s) :
+    ∃ s1 r1, skipBlanks s false = some (s1, r1) ∧
+      hasColon s = some (s1, if colonAhead (s1.line.drop s1.p) then 1 else 0) := by
+  obtain ⟨s1, r1, h1, i1⟩ := skipBlanks_safe s false h
+  refine ⟨s1, r1, h1, ?_⟩
+  unfold hasColon
+  obtain ⟨j, hj, hj1, hj2, hj3⟩ := scanFrom_colon (s1.line.drop s1.p) s1.p 0
+  have hi : s1.p ≤ s1.line.length := i1
+  have hsw : scanWhile (fun c _ => !endLine c && c != ':') s1.line s1.p 0 = some j := by simp [scanWhile, hi, hj]
+  have hjl : j ≤ s1.line.length := by simp at hj2; omega
+  obtain ⟨c, hc⟩ := rd_some hjl
+  simp only [h1, hsw, hc, Option.bind_eq_bind, Option.bind_some, Option.pure_def]
+  have : (c == ':') = colonAhead (s1.line.drop s1.p) := by
+    rw [← hj3]
+    unfold rd at hc
+    split at hc
+    · rename_i hlt
+      simp at hc; subst hc
+      have hidx : s1.p + (j - s1.p) = j := by omega
+      simp [List.head?_drop, hidx, List.getElem?_eq_getElem hlt]
+    · split at hc
+      · rename_i heq
+        simp at hc; subst hc
+        have : s1.line.length ≤ s1.p + (j - s1.p) := by omega
+        simp [List.drop_drop, List.drop_eq_nil_of_le, this, NUL]
+      · simp at hc
+  simp [this]
+
+end Qsx.LpLex
